@@ -403,6 +403,8 @@ class VectorDot(Expr):  # type: ignore[misc]
     frame is reversed.
     """
 
+    is_commutative = True
+
     @property
     def lhs(self) -> VectorExpr:
         return self.args[0]  # type: ignore[no-any-return]
@@ -663,6 +665,7 @@ class VectorMixedProduct(Expr):  # type: ignore[misc]
     """
 
     is_real = True
+    is_commutative = True
 
     @cacheit
     def __new__(cls, *values: Expr, evaluate: Optional[bool] = None) -> Expr:
